@@ -1,1 +1,7 @@
 import EdpVerif.Props.C01
+import EdpVerif.Props.C09
+import EdpVerif.Props.C11
+import EdpVerif.Props.C12
+import EdpVerif.Props.C13
+import EdpVerif.Props.C05
+import EdpVerif.Props.C10
